@@ -193,6 +193,10 @@ impl Rig {
                 CommandResult::Continue(None)
             }))
             .unwrap();
+        // hands its first argument back as its output (no output without arguments)
+        ctx.commands
+            .set(fn_command("giveback", move |c| CommandResult::Continue(c.arguments.first().cloned())))
+            .unwrap();
         Rig { ctx, trace }
     }
 
@@ -278,6 +282,10 @@ fn check(w: &mut Worker, rig: &Rig, tokens: &[String], phase: &str, nontrivial: 
         Some(v) => v,
         None => return,
     };
+    check_expect(w, rig, tokens, phase, nontrivial, exp)
+}
+
+fn check_expect(w: &mut Worker, rig: &Rig, tokens: &[String], phase: &str, nontrivial: bool, exp: bool) {
     for consumer in 0..4usize {
         if !w.take() {
             continue;
@@ -371,6 +379,19 @@ pub fn worker(w: &mut Worker) {
             check(w, &rig, &toks, "truthiness", true);
         }
     }
+    // a command in condition position: its output value is one value, judged by the truthiness table
+    // whatever it looks like (the words of the condition syntax included)
+    {
+        let mut outs: Vec<String> = pool.clone();
+        for s in ["and", "or", "(", ")", "not", "true and false", "false or true", "( false )", "a b"] {
+            outs.push(s.to_string());
+        }
+        for v in &outs {
+            let toks = vec!["giveback".to_string(), v.clone()];
+            check_expect(w, &rig, &toks, "command-output", true, ref_truthy(Some(v.as_str())));
+        }
+        check_expect(w, &rig, &["giveback".to_string()], "command-output", true, false);
+    }
     // absent value: `not` without arguments is "Missing condition" by documentation; an undefined
     // variable is the absent value a script can write
     {
@@ -418,7 +439,7 @@ pub fn replay(case: &Value) -> Result<String, String> {
         .map(|v| v.as_str().unwrap_or("").to_string())
         .collect();
     let rig = Rig::new();
-    let exp = ref_eval(&tokens);
+    let exp = case["expected"].as_bool().or_else(|| ref_eval(&tokens));
     let c = CONSUMERS.iter().position(|c| Some(*c) == case["consumer"].as_str()).unwrap_or(0);
     let got = guarded(|| match c {
         0 => rig.run_not(&tokens).map(|v| v == "false"),
@@ -431,7 +452,7 @@ pub fn crash_sig(_case: &Value, kind: &str) -> String {
     kind.to_string()
 }
 
-pub const RULE: &str = "every token sequence up to the length bound over {T,F,and,or,(,)} that the grammar cond := disj ('and' disj)* ; disj := atom ('or' atom)* ; atom := value | '(' cond? ')' accepts, spelled with true/false, through each of not (run_instruction), if, elseif, while (scripts with marker commands); then the truthiness pool (all 2^n case variants of false/no/true/yes and 27 other values, among them values that start or end with a parenthesis) in 6 statement frames; then all sentences up to the second bound with 5x5 truthy/falsy spellings. Oracle: recursive-descent reference evaluator. A case is (statement, consumer); non-trivial when the statement has an operator or group; states = distinct (consumer, value, length) classes; transitions = real evaluations";
+pub const RULE: &str = "every token sequence up to the length bound over {T,F,and,or,(,)} that the grammar cond := disj ('and' disj)* ; disj := atom ('or' atom)* ; atom := value | '(' cond? ')' accepts, spelled with true/false, through each of not (run_instruction), if, elseif, while (scripts with marker commands); then the truthiness pool (all 2^n case variants of false/no/true/yes and 27 other values, among them values that start or end with a parenthesis) in 6 statement frames; then a command in condition position handing back each value of that pool and the words and, or, (, ), not, 'true and false', 'false or true', '( false )' as its output (one value, judged by the truthiness table); then all sentences up to the second bound with 5x5 truthy/falsy spellings. Oracle: recursive-descent reference evaluator. A case is (statement, consumer); non-trivial when the statement has an operator or group; states = distinct (consumer, value, length) classes; transitions = real evaluations";
 pub const ASSUMPTIONS: &[&str] = &["atoms that are names of registered commands are excluded (they are dispatched as commands)", "ill-formed statements are not constrained"];
 pub const EXHAUSTIVE: bool = true;
 pub const WALL_CAP_S: (u64, u64) = (50, 1500);
